@@ -59,3 +59,25 @@ Definition ctx_ok (r : string * string * string * string * string * string) : bo
 Lemma c18_field_contexts : forallb ctx_ok template_field_contexts = true.
 Proof. vm_compute. reflexivity. Qed.
 Goal True. idtac "@@OBL c18_field_contexts". Abort.
+
+
+(* every value keymasterd builds by hand and converts to template.HTML (or a sibling type), leaf by leaf with the
+   HTML position of each non-constant leaf (c18_handbuilt.go): text run through HTMLEscapeString stands in text,
+   RCDATA or a QUOTED attribute value only (Props/C18.v c18_hand_attr_quoted_inert; the unquoted position is
+   c18_hand_attr_unquoted_refuted: a blank ends the value); base-64 text stands in text or a quoted (URL) attribute
+   value behind a literal prefix.  Anything else - an unquoted attribute, a tag or attribute-name position, script,
+   style, event handler, an unescaped leaf - fails until it is modelled. *)
+Definition hb_ok (r : string * string * string * string * string) : bool :=
+  let '(_, cls, esc, _, _) := r in
+  String.eqb esc "literal" ||
+  (String.eqb esc "escaped" && (String.eqb cls "text" || String.eqb cls "rcdata" || String.eqb cls "attr-dq" || String.eqb cls "attr-sq")) ||
+  (String.eqb esc "base64" && (String.eqb cls "text" || String.eqb cls "attr-dq" || String.eqb cls "attr-sq" ||
+                               String.eqb cls "url-attr-prefixed" || String.eqb cls "url-attr-rooted")).
+Lemma c18_handbuilt_quoting : forallb hb_ok hand_built_markup = true.
+Proof. vm_compute. reflexivity. Qed.
+Goal True. idtac "@@OBL c18_handbuilt_quoting". Abort.
+
+(* the admin port has pages (registrations of main() on http.DefaultServeMux, rebuilt by the harness) *)
+Lemma c18_admin_routes_listed : negb (Nat.eqb (List.length admin_routes) 0) = true.
+Proof. vm_compute. reflexivity. Qed.
+Goal True. idtac "@@OBL c18_admin_routes_listed". Abort.
